@@ -20,7 +20,7 @@ def Chunk.bytes : Chunk → Bytes
 def stream (cs : List Chunk) : Bytes := cs.flatMap Chunk.bytes
 
 /-- There is an output method. -/
-def Attached (st : State) : Prop := st.hasFunc = true ∨ st.hasFd = true
+def Attached (st : State) : Prop := st.hasFunc = true ∨ st.outfd ≠ -1
 
 /-- The output method in force: the function wins over the descriptor. -/
 def sink (st : State) : Dest := if st.hasFunc then .func else .fd
@@ -38,7 +38,7 @@ def ChunkOK (n : Nat) (d : Dest) (c : Chunk) : Prop :=
 /-- `st'` is `st` after the bytes `w` have been accepted and the mode has become `m'`. -/
 structure ExtM (st st' : State) (w : Bytes) (m' : Mode) : Prop where
   hasFunc : st'.hasFunc = st.hasFunc
-  hasFd   : st'.hasFd = st.hasFd
+  outfd   : st'.outfd = st.outfd
   bufLen  : st'.bufLen = st.bufLen
   mode    : st'.mode = m'
   out     : ∃ new, st'.out = st.out ++ new ∧ ∀ c ∈ new, ChunkOK st.bufLen (sink st) c
@@ -119,10 +119,10 @@ theorem ExtM.thenE {a b c : State} {w1 w2 : Bytes} {m : Mode} (h1 : ExtM a b w1 
 /-- Overwriting the mode after the fact. -/
 theorem ExtM.setMode {a b : State} {w : Bytes} {m : Mode} (h : ExtM a b w m) (m' : Mode) :
     ExtM a { b with mode := m' } w m' :=
-  ⟨h.hasFunc, h.hasFd, h.bufLen, rfl, h.out, h.eqn, h.wf⟩
+  ⟨h.hasFunc, h.outfd, h.bufLen, rfl, h.out, h.eqn, h.wf⟩
 
 /-- Changing only `tmpLen` (or nothing the relation looks at). -/
-theorem Ext.of_same {st st' : State} (h : WF st) (hf : st'.hasFunc = st.hasFunc) (hd : st'.hasFd = st.hasFd)
+theorem Ext.of_same {st st' : State} (h : WF st) (hf : st'.hasFunc = st.hasFunc) (hd : st'.outfd = st.outfd)
     (hn : st'.bufLen = st.bufLen) (hm : st'.mode = st.mode) (ho : st'.out = st.out) (hb : st'.buf = st.buf) :
     Ext st st' [] := by
   refine ⟨hf, hd, hn, hm, ⟨[], by simp [ho]⟩, ?_, ?_⟩
@@ -131,16 +131,35 @@ theorem Ext.of_same {st st' : State} (h : WF st) (hf : st'.hasFunc = st.hasFunc)
 
 /-! ### deliver and flush -/
 
+/-- The test in front of `write(2)` in `tickit_term_flush`, as read from the source, is `tt->outfd != -1`:
+    every descriptor number — 0 included — is written to. -/
+theorem flush_fd_guard_iff (fd : Int) : flush_fd_guard fd = true ↔ fd ≠ -1 := by
+  simp [flush_fd_guard]
+
+/-- The same test in the unbuffered arm of `write_str`. -/
+theorem write_str_fd_guard_iff (fd : Int) : write_str_fd_guard fd = true ↔ fd ≠ -1 := by
+  simp [write_str_fd_guard]
+
+/-- Buffered or not, the same descriptors are written to: the two places agree for every descriptor number. -/
+theorem fd_guards_agree : write_str_fd_guard = flush_fd_guard := by
+  funext fd
+  have a := flush_fd_guard_iff fd
+  have b := write_str_fd_guard_iff fd
+  cases h1 : write_str_fd_guard fd <;> cases h2 : flush_fd_guard fd <;> simp_all
+
+theorem deliverWith_write_str (st : State) (b : Bytes) : deliverWith write_str_fd_guard st b = deliver st b := by
+  rw [fd_guards_agree]; rfl
+
 theorem deliver_buf (st : State) (b : Bytes) : (deliver st b).buf = st.buf := by
-  unfold deliver
+  unfold deliver deliverWith
   split
   · rfl
   · split <;> rfl
 
 theorem deliver_frame (st : State) (b : Bytes) :
-    (deliver st b).hasFunc = st.hasFunc ∧ (deliver st b).hasFd = st.hasFd ∧
+    (deliver st b).hasFunc = st.hasFunc ∧ (deliver st b).outfd = st.outfd ∧
     (deliver st b).bufLen = st.bufLen ∧ (deliver st b).mode = st.mode ∧ (deliver st b).tmpLen = st.tmpLen := by
-  unfold deliver
+  unfold deliver deliverWith
   split
   · simp
   · split <;> simp
@@ -149,12 +168,17 @@ theorem deliver_frame (st : State) (b : Bytes) :
 theorem deliver_out (st : State) (b : Bytes) :
     (Attached st ∧ (deliver st b).out = st.out ++ [.data (sink st) b]) ∨
     (¬ Attached st ∧ (deliver st b).out = st.out) := by
-  unfold deliver Attached sink
+  unfold deliver deliverWith Attached sink
   by_cases hf : st.hasFunc = true
   · simp [hf]
-  · by_cases hd : st.hasFd = true
-    · simp [hf, hd]
-    · simp [hf, hd]
+  · by_cases hd : st.outfd = -1
+    · have hg : flush_fd_guard st.outfd = false := by
+        cases h : flush_fd_guard st.outfd
+        · rfl
+        · exact absurd hd ((flush_fd_guard_iff _).1 h)
+      simp [hf, hd, hg]
+    · have hg : flush_fd_guard st.outfd = true := (flush_fd_guard_iff _).2 hd
+      simp [hf, hd, hg]
 
 /-- `tickit_term_flush` on a buffer that is not over-full: everything pending is delivered as one chunk. -/
 theorem flush_ext {st : State} (hle : st.buf.length ≤ st.bufLen) (hpos : st.bufLen = 0 → st.buf = []) :
@@ -337,7 +361,7 @@ theorem writeStr_ext {st st' : State} {mem : Bytes} {len : Nat} (hwf : WF st)
       · rw [if_pos hn] at h
         have hpos : 0 < st.bufLen := Nat.pos_of_ne_zero hn
         exact writeLoop_ext _ st _ st' hpos (hwf.2 hpos) h
-      · rw [if_neg hn] at h
+      · rw [if_neg hn, deliverWith_write_str] at h
         have hn0 : st.bufLen = 0 := by simpa using hn
         have hb : st.buf = [] := hwf.1 hn0
         injection h with h; subst h
@@ -797,7 +821,7 @@ theorem step_setFd_ext {st st' : State} (hwf : WF st) (h : step st .setFd = .ok 
 
 theorem preFunc_facts (st : State) :
     (preFunc st).buf = st.buf ∧ (preFunc st).bufLen = st.bufLen ∧ (preFunc st).mode = st.mode ∧
-    (preFunc st).hasFunc = true ∧ (preFunc st).hasFd = st.hasFd ∧ stream (preFunc st).out = stream st.out ∧
+    (preFunc st).hasFunc = true ∧ (preFunc st).outfd = st.outfd ∧ stream (preFunc st).out = stream st.out ∧
     ∃ pre, (preFunc st).out = st.out ++ pre ∧ ∀ c ∈ pre, c = Chunk.fin := by
   unfold preFunc
   split
@@ -847,9 +871,9 @@ theorem step_attached {st st' : State} {o : Op} (hwf : WF st) (h : step st o = .
     Attached st' := by
   unfold Attached at *
   rcases step_cases hwf h with ⟨_, e⟩ | ⟨n, _, rfl⟩ | ⟨_, e⟩ | ⟨_, e⟩
-  · rw [e.hasFunc, e.hasFd]; exact ha
+  · rw [e.hasFunc, e.outfd]; exact ha
   · exact ha
-  · rw [e.hasFd]; exact Or.inr rfl
+  · rw [e.outfd]; exact Or.inr rfl
   · rw [e.hasFunc]; exact Or.inl (preFunc_facts st).2.2.2.1
 
 theorem step_bufLen {st st' : State} {o : Op} (hwf : WF st) (h : step st o = .ok st') (hns : ∀ n, o ≠ .setbuf n) :
@@ -1234,7 +1258,7 @@ theorem step_attach_attached {st st' : State} {o : Op} (hwf : WF st) (ho : IsAtt
     Attached st' := by
   rcases ho with rfl | rfl
   · have e := step_setFd_ext hwf h
-    exact Or.inr (by rw [e.hasFd])
+    exact Or.inr (by rw [e.outfd])
   · have e := step_setFunc_ext hwf h
     exact Or.inl (by rw [e.hasFunc]; exact (preFunc_facts st).2.2.2.1)
 
